@@ -28,6 +28,8 @@ impl Transport {
 			};
 			(loop_start, loop_end)
 		});
+		// a loop region that contains no frames cannot be looped
+		let loop_region = loop_region.filter(|(loop_start, loop_end)| loop_start < loop_end);
 		Self {
 			position: if reverse {
 				// a start position at or past the end starts at the first frame
@@ -54,6 +56,10 @@ impl Transport {
 			};
 			(loop_start, loop_end)
 		});
+		// a loop region that contains no frames cannot be looped
+		self.loop_region = self
+			.loop_region
+			.filter(|(loop_start, loop_end)| loop_start < loop_end);
 	}
 
 	pub fn increment_position(&mut self, num_frames: usize) {
